@@ -1,8 +1,10 @@
 """C08 — instant arithmetic and epoch conversions agree with the calendar (structural clauses)."""
 import datetime
+import re
 
 from ..facts import walk, strip, strip_casts, lv, show, writes, calls, int_value, table_py, root_var
 from ..q import call_sites, const_eval
+from ..flow import cond_atoms
 from ..snapshot import AnalysisBroken
 
 UNITS = None
@@ -343,6 +345,70 @@ def r08_4(prog, rep):
         rep.broken_("rule=R08.4 no March-based table found")
 
 
+R08_5_EXCEPTIONS = {
+    ("ywd_to_md", "res.m"): "returns a (month, day) pair without a year: a week-date spilling over New Year is folded onto Dec/Jan, "
+                            "the neighbouring years are represented by the caller's three candidate sets",
+}
+
+
+def r08_5(prog, rep):
+    """Sibling pattern: wherever a month counter wraps (reset to 1 or 12, +/-= 12, %= 12 under a test against the range) the
+    same block adjusts another counter (the year).  All wrap sites of the calendar code are cross-checked."""
+    rid = "R08.5"
+    n = 0
+    for f in prog.all_fns():
+        if not f.cfg or f.file not in ("instant.c", "evrrul.c", "scale.c", "tzob.c", "echsd.c"):
+            continue
+        cfg = f.cfg
+        seen = {}
+        for b, blk in cfg.blocks.items():
+            wraps = []
+            others = []
+            for e in blk.elems:
+                for l, kind, nn in writes(e["x"]):
+                    t = lv(l)
+                    if nn.get("k") == "bin":
+                        v = int_value(nn["r"])
+                        if (nn["op"] == "=" and v in (1, 12)) or (nn["op"] in ("+=", "-=", "%=") and v == 12):
+                            wraps.append((t, nn))
+                            continue
+                    if kind in ("incdec", "compound") or (nn.get("k") == "bin" and nn["op"] == "="):
+                        others.append((t, kind, nn))
+            if not wraps:
+                continue
+            # the block must be entered under a range test of that very variable
+            preds = cfg.lpreds[b]
+            if len(preds) != 1:
+                continue
+            c = cfg.cond(preds[0])
+            if c is None:
+                continue
+            for mt, nn in wraps:
+                mname = mt.split(".")[-1].split("->")[-1]
+                if not re.fullmatch(r"(this_|nu_)?m|mon|month", mname):
+                    continue
+                tested = False
+                for a in cond_atoms(c, True) + cond_atoms(c, False):
+                    if len(a) == 5 and (mt in a[1] or mt in a[2]) and (int_value(a[3]) in (0, 1, 12) or int_value(a[4]) in (0, 1, 12)):
+                        tested = True
+                if not tested:
+                    continue
+                n += 1
+                k0 = "%s/month-wrap %s" % (f.name, mt)
+                seen[k0] = seen.get(k0, 0) + 1
+                key = k0 if seen[k0] == 1 else "%s#%d" % (k0, seen[k0])
+                carry = [o for o in others if o[0] != mt and o[1] in ("incdec", "compound") and re.search(r"y", o[0].split(".")[-1])]
+                if (f.name, mt) in R08_5_EXCEPTIONS:
+                    rep.note(rid, key, f.loc(nn.get("line")), "listed exception: " + R08_5_EXCEPTIONS[(f.name, mt)])
+                elif carry:
+                    rep.ok(rid, key, f.loc(nn.get("line")), "month wrap `%s` adjusts %s in the same block" % (show(nn), carry[0][0]), nontrivial=(seen[k0] == 1))
+                else:
+                    rep.fail(rid, key, f.loc(nn.get("line")),
+                             "the month counter %s wraps (`%s`) without the year being adjusted in the same block; every other wrap site in the calendar code carries the year" % (mt, show(nn)))
+    if n < 12:
+        rep.broken_("rule=R08.5 expected >=12 month-wrap sites, found %d" % n)
+
+
 def run(prog, rep, tier, snap):
     rep.rule("R08.1", "64-bit evaluation of millisecond quantities", 6)
     r08_1(prog, rep)
@@ -352,4 +418,6 @@ def run(prog, rep, tier, snap):
     r08_3(prog, rep)
     rep.rule("R08.4", "March-based table implies a year carry for months < 3 (both directions)", 2)
     r08_4(prog, rep)
+    rep.rule("R08.5", "every month wrap carries the year (sibling pattern over all wrap sites)", 12)
+    r08_5(prog, rep)
 READY = True
